@@ -26,6 +26,12 @@ Theorem C10_roundtrip_partial : forall (dec2f dec2d : list Z -> Z) o vs text w,
   scan_arg_vals dec2f dec2d text (Z.of_nat (length vs)) = Ok (vs, []).
 Proof. exact roundtrip_scalars. Qed.
 
+(* the printer model never fails on good values: the theorem above speaks
+   about every such list and every option record *)
+Theorem C10_print_total : forall o vs,
+  Forall good_val vs -> exists text w, print_arg_vals o vs 0 = Some (text, w).
+Proof. exact print_arg_vals_total. Qed.
+
 (* line breaks (" " replaced by "\n    ", strings split into concatenated
    pieces) are transparent: whatever white space separates the tokens, and at
    whatever column a string was broken, both recognisers read the values *)
